@@ -47,6 +47,8 @@ class OpGraphNode:
         Flip logical input <-> output direction.
         """
         self.eids = tuple(reversed(self.eids))
+        # the operators on the connected edges now act in the opposite direction
+        self.qnum = -self.qnum
         return self
 
 
